@@ -377,8 +377,32 @@ namespace c14
         }
     }
 
+    namespace
+    {
+        // the alignment helpers of the memory API are public functions of (pointer value, size, block size) too; the pointer is never dereferenced
+        template <class T>
+        void add_memory_helpers(std::vector<FnEntry>& out, const char* tname)
+        {
+            out.push_back(FnEntry { "get_alignment_offset", tname, C14_ARCHNAME, 2, 4, 8, true,
+                                    [](const void* a, const void* b, void* o)
+                                    {
+                                        uint64_t w[4], v[4];
+                                        memcpy(w, a, sizeof w);
+                                        memcpy(v, b, sizeof v);
+                                        const T* p = reinterpret_cast<const T*>((uintptr_t)w[0]);
+                                        size_t block = (size_t)1 << (v[0] & 7);
+                                        size_t r = xsimd::get_alignment_offset(p, (size_t)w[1], block) + xsimd::get_alignment_offset(p, (size_t)v[1], block);
+                                        r += (size_t)xsimd::is_aligned<C14_ARCH>(p);
+                                        memcpy(o, &r, sizeof r);
+                                    } });
+        }
+    }
+
     void C14_FN(std::vector<FnEntry>& out)
     {
+        add_memory_helpers<float>(out, "u64/float*");
+        add_memory_helpers<double>(out, "u64/double*");
+        add_memory_helpers<int16_t>(out, "u64/int16*");
         add_all<float>(out);
         add_all<double>(out);
         add_int<int8_t>(out);
